@@ -244,6 +244,9 @@ def render_arg(ex, arg, flags=0, width=None):
             if width == 2 and flags & (1 << 24) and not ex.feasible(z3.Or(v < 0, v > 255)):
                 hexd = lambda d: z3.If(d < 10, 48 + d, 87 + d)
                 return [hexd(v / 16), hexd(v % 16)]
+            if (width is None or width <= 1) and not ex.feasible(z3.Or(v < 0, v > 255)):      # {:x}: minimal number of digits
+                hexd = lambda d: z3.If(d < 10, 48 + d, 87 + d)
+                return [hexd(v)] if ex.branch_bool(v < 16) else [hexd(v / 16), hexd(v % 16)]
             raise Unsupported('symbolic hex formatting')
         out = [ord(c) for c in '%x' % v]
     elif kind in ('display', 'debug') and is_sym(v):
